@@ -5,7 +5,7 @@
 (* and keyword tables) are read-only; what a goroutine writes ("$" locals)  *)
 (* goes to its own data map.  So every goroutine's result is the sequential *)
 (* one, whatever the interleaving.                                          *)
-EXTENDS FEval, FData, FFields, TLC
+EXTENDS FEval, FData, FFields, FLexer, TLC
 
 Tk(k, v) == <<k, v, FALSE>>
 OpK(k) == <<k, k, FALSE>>
@@ -14,17 +14,29 @@ Two == <<FALSE, <<2>>, 0>>
 SharedTexts == <<
   << Tk("Id", "a"), OpK("+"), Tk("Id", "b"), OpK("*"), Tk("Num", Two) >>,
   << Tk("Id", "$t"), OpK("="), Tk("Id", "a"), OpK(","), Tk("Id", "$t"), OpK("+"), Tk("Id", "b") >>,
-  << Tk("Id", "a"), OpK("+"), Tk("Id", "b") >> >>
+  << Tk("Id", "a"), OpK("+"), Tk("Id", "b") >>,
+  \* [regexp(s1, 'ab'), regexp(s2, '^(a)*$'), regexp(s2, 'ab')] : two patterns in flight in every evaluation
+  << OpK("["), Tk("Id", "regexp"), OpK("("), Tk("Id", "s1"), OpK(","), Tk("Str", <<97,98>>), OpK(")"), OpK(","),
+     Tk("Id", "regexp"), OpK("("), Tk("Id", "s2"), OpK(","), Tk("Str", <<94,40,97,41,42,36>>), OpK(")"), OpK(","),
+     Tk("Id", "regexp"), OpK("("), Tk("Id", "s2"), OpK(","), Tk("Str", <<97,98>>), OpK(")"), OpK("]") >> >>
 Datas == << [a |-> <<"int", 1>>, b |-> <<"int", 2>>],
             [a |-> <<"dec", FALSE, <<1>>, 1>>, b |-> <<"f64", FALSE, <<5>>, -1>>],
-            [a |-> <<"int64", FALSE, <<9,0,0,7,1,9,9,2,5,4,7,4,0,9,9,3>>>>, b |-> <<"int", -3>>] >>
+            [a |-> <<"int64", FALSE, <<9,0,0,7,1,9,9,2,5,4,7,4,0,9,9,3>>>>, b |-> <<"int", -3>>],
+            [s1 |-> <<"str", <<99,97,98>>>>, s2 |-> <<"str", <<97,97,97>>>>],
+            [s1 |-> <<"str", <<98,97>>>>, s2 |-> <<"str", <<97,98>>>>] >>
+\* texts (bytes) that other goroutines parse meanwhile: escapes, long literals, a rejected one
+ParseTexts == << <<39,92,117,52,70,49,49,92,117,52,70,51,52,39,43,39,92,120,52,49,39>>,      \* '\u4F11\u4F34'+'\x41'
+                 <<39,92,117,48,48,52,49,92,120,54,50,92,117,52,101,50,100,39>>,            \* '\u0041\x62\u4e2d'
+                 <<49,32,43,10,32,40,50,32,42>> >>                                          \* 1 +\n (2 *
 \* a workload is <<"eval", text index, data index>> | <<"fields", text index>>
 SharedTree(i) == ParseTokens(SharedTexts[i])[2]
 Expected(w) ==
   IF w[1] = "eval" THEN
      LET o == Outcome(SharedTree(w[2]), [this |-> NormMap(Datas[w[3]]), log |-> <<>>]) IN
      IF o[1] = "ok" THEN <<"ok", o[2], o[3].this>> ELSE IF o[1] = "err" THEN <<"err", o[2].this>> ELSE o
+  ELSE IF w[1] = "parse" THEN
+     LET lx == LexAll(ParseTexts[w[2]]) IN IF lx.st # "ok" THEN <<"REJECT">> ELSE ParseTokens(GToks(lx.toks))
   ELSE <<Fields(SharedTree(w[2])), FieldsNotLocal(SharedTree(w[2]))>>
 \* evaluation steps (one gate per evaluated node) of the shared formulas
-GatesOf(w) == IF w[1] = "eval" THEN (CASE w[2] = 1 -> 5 [] w[2] = 2 -> 6 [] w[2] = 3 -> 3) ELSE 0
+GatesOf(w) == IF w[1] = "eval" THEN (CASE w[2] = 1 -> 5 [] w[2] = 2 -> 6 [] w[2] = 3 -> 3 [] w[2] = 4 -> 13) ELSE 0
 =============================================================================
